@@ -37,10 +37,17 @@ func To(fs http.FileSystem, r *http.Request, to string, replacer httpserver.Repl
 		tparts := strings.SplitN(t, "?", 2)
 
 		if len(without) > 0 {
-			t = path.Clean(strings.TrimPrefix(tparts[0], without[0]))
+			t = strings.TrimPrefix(tparts[0], without[0])
 		} else {
-			t = path.Clean(tparts[0])
+			t = tparts[0]
 		}
+		// the result replaces the request path, which is always rooted;
+		// path matchers (basicauth, internal, ...) never match a relative
+		// path while the file system resolves it from the root all the same
+		if !strings.HasPrefix(t, "/") {
+			t = "/" + t
+		}
+		t = path.Clean(t)
 
 		if len(tparts) > 1 {
 			query = tparts[1]
